@@ -104,6 +104,11 @@ func MainOpts(t *testing.T, prop string, gen Gen, rule string, nontrivial func(C
 					sk = "batch-empty"
 				}
 				res.Count("seq:" + sk)
+				if it.Seq == "batch" && it.ZeroTs {
+					res.Count("seq-time:zero-time.Time(timestamp-unset)")
+				} else if it.Seq == "batch" && it.Ts < EpochMs {
+					res.Count("seq-time:before-1970")
+				}
 				if sk == "err" {
 					res.Count(fmt.Sprintf("seq-err:%q", seqErr(it.ErrKind, i).Error()))
 				}
@@ -165,6 +170,9 @@ func MainOpts(t *testing.T, prop string, gen Gen, rule string, nontrivial func(C
 		}
 		if w.Or.earlyEmpty {
 			res.Count("history:empty-batch-with-earlier-timestamp")
+		}
+		if w.Or.preEpoch {
+			res.Count("history:batch-stamped-before-the-unix-epoch-or-with-the-zero-time")
 		}
 		if w.Or.tornCommit {
 			res.Count("history:crash-inside-commit-group")
